@@ -895,6 +895,30 @@ def restyle_pairs(ctx, n, seed_):
     run_given(ctx, strat, body, n, seed_, phases=(Phase.explicit, Phase.generate))
 
 
+def late_image(ctx):
+    """A style gets its background image after it was created - before the first save, and after a save on the same handle (fixed
+    cases: the histories reach this edit only now and then)."""
+    png = "89504e470d0a1a0a"
+    for k, saved_first in enumerate((False, True)):
+        ex = StyleExec(ctx)
+        try:
+            ex.apply("new", rows=3, cols=2)
+            ex.apply("add_style", spec={"name": "Late", "bold": True, "font_size": 14.0})
+            ex.apply("apply", row=0, col=0, idx=0, by_name=False)
+            if saved_first:
+                ex.apply("reopen", switch=False)
+            ex.apply("edit", idx=0, attr="bg_image", value=[f"late_fixed_{k}.png", png + "a1a2a3a4" + f"{k:02x}"])
+            ex.apply("apply", row=1, col=1, idx=0, by_name=False)
+            ex.apply("reopen", switch=False)
+            ex.finish()
+            ctx.nt_enum(1)
+            ctx.count("late_image_cases")
+        except _Abort:
+            pass
+        finally:
+            ex.close()
+
+
 READONLY_QUICK = ["test-bgcolour.numbers", "test-styles.numbers", "test-1.numbers", "test-formats.numbers", "test-extra-borders.numbers", "issue-51.numbers"]
 
 
@@ -998,6 +1022,7 @@ def run_task(ctx, lane, **kw):
     elif lane == "adjacent":
         adjacent_pairs(ctx)
         image_name_collision(ctx)
+        late_image(ctx)
     elif lane == "readonly":
         check_readonly(ctx, {"lane": "readonly", "fixture": kw["fixture"]})
     elif lane == "restyle":
